@@ -16,6 +16,7 @@
   and their non-vacuity examples live here.
 -/
 import RbpfModel.Lemmas.X86Sim.Entry
+import RbpfModel.Lemmas.X86Sim.EntryC
 import RbpfModel.Lemmas.X86Enc.Layout
 import RbpfModel.Lemmas.X86Enc.Targets
 import RbpfModel.Props.C03
@@ -108,5 +109,61 @@ theorem C12_code_wellformed (p : Bytes) (haddr : Nat → Option Nat) (um ud : Bo
     JitAst.validate p haddr um ud code { pcLocs := locs, exitLoc := ex } = true :=
   have ht := targetsOk_of_check p haddr hacc
   compile_validates_partial p haddr um ud code locs ex hcomp hh ht.1 hsz ht.2
+
+/-- C03's exclusions "results that depend on a never-written register, or on r1 … r5 after a helper call", stated
+    semantically: whatever r0, r2 … r9 hold at entry and whatever each helper call leaves in r1 … r5 (`clob`), the run
+    returns the same value, leaves the same memory and makes the same helper calls -/
+def ClobIndep (env : Env) (m : Memory) (fuel : Nat) : Prop :=
+  ∀ (clob : Nat → Nat → BitVec 64) (s : State), s.pc = 0 → s.frames = [] → s.mem = m → s.log = [] →
+    s.reg[1]? = (Interp.init m).reg[1]? → s.reg[10]? = (Interp.init m).reg[10]? →
+    ∀ r0 a, EngineSem.jitRun env (Interp.init m) fuel = .done r0 a →
+      ∃ b, jitRunC clob env s fuel = .done r0 b ∧ b.mem = a.mem ∧ b.log = a.log
+
+/-- **machine code = interpreter, with helper calls** (and C08's clauses for the x86-64 JIT).  For an accepted program
+    whose instructions are covered, `exit` or helper calls, compiled by the emitter model against helper addresses at
+    which the machine finds the registered functions (`ExtOk`): whenever the interpreter returns `r0`, the machine
+    returns `r0`, leaves packet / metadata / registered ranges as the interpreter leaves them, restores the callee-saved
+    registers and rsp — and it has called the same helpers with the same five arguments in the same order as the
+    interpreter (`σ'.log` against the interpreter's log), each time with rsp a multiple of 16 (no call counted as
+    misaligned), provided the caller respected the ABI at entry (`m.stack.base % 16 = 0`, i.e. rsp + 8 ≡ 0 mod 16). -/
+theorem C03_x86_calls (env : Env) (haddr : Nat → Option Nat) (um : Bool) (c : X86.Cfg) (locs : Array Nat) (ex : Nat)
+    (m : Memory) (σ : X86.St) (fuel : Nat) (r0 : BitVec 64) (s' : State)
+    (hacc : Verifier.check env.prog = .ok)
+    (hcomp : JitEmit.compileWithLayout env.prog haddr um false = .ok (c.code, locs, ex))
+    (hext : ExtOk c env haddr) (hsz : c.code.size < 2 ^ 31)
+    (hcov : CoveredC env.prog) (hl : NoLocalCall env.prog) (h7 : NoF7 env.prog)
+    (hbase : c.codeBase + c.code.size < 2 ^ 63)
+    (hsent : c.retSentinel.toNat < c.codeBase ∨ c.codeBase + c.code.size ≤ c.retSentinel.toNat)
+    (he : Entry c m σ) (hlog : σ.log = []) (halign : m.stack.base % 16 = 0)
+    (hpkt : m.mem.bytes.size = 0 → m.mem.base = 0) (hum : um = false → m.mbuff.bytes.size = 0)
+    (hindep : ClobIndep env m fuel)
+    (hint : Interp.run env (Interp.init m) fuel = .done r0 s') :
+    ∃ k σ', X86.run c σ k = .done r0 σ' ∧ MemRel σ'.mem s'.mem ∧
+      σ'.get 3 = σ.get 3 ∧ σ'.get 5 = σ.get 5 ∧ σ'.get 13 = σ.get 13 ∧ σ'.get 14 = σ.get 14 ∧ σ'.get 15 = σ.get 15 ∧
+      (σ'.get X86.RSP).toNat = (σ.get X86.RSP).toNat + 8 ∧
+      σ'.log.map (·.2) = s'.log.map (·.2) ∧ σ'.misaligned = σ.misaligned := by
+  have hna : ∀ t, Interp.run env (Interp.init m) fuel ≠ .err .unaligned t := by
+    intro t ht'; rw [hint] at ht'; cases ht'
+  have hrel := C03_run env m fuel hl h7 hna
+  rw [hint] at hrel
+  obtain ⟨a, hja, hsame, hlogs⟩ : ∃ a, EngineSem.jitRun env (Interp.init m) fuel = .done r0 a ∧ a.mem = s'.mem ∧ a.log = s'.log := by
+    cases hj : EngineSem.jitRun env (Interp.init m) fuel with
+    | done r a =>
+      rw [hj] at hrel
+      obtain ⟨hr, hs⟩ := hrel
+      exact ⟨a, by rw [hr], hs.2.2.2.1, hs.2.2.2.2⟩
+    | err e a => rw [hj] at hrel; exact absurd hrel (by simp [ResultRel])
+    | panic => rw [hj] at hrel; exact absurd hrel (by simp [ResultRel])
+    | fault => rw [hj] at hrel; exact absurd hrel (by simp [ResultRel])
+    | timeout a => rw [hj] at hrel; exact absurd hrel (by simp [ResultRel])
+  obtain ⟨h1, h10⟩ := entryState_r1_r10 c m σ um he hpkt hum
+  obtain ⟨b, hjb, hbm, hbl⟩ := hindep c.clobber (entryState m σ um) rfl rfl rfl rfl h1 h10 r0 a hja
+  have ht := targetsOk_of_check env.prog haddr hacc
+  have hv := compile_validates_partial env.prog haddr um false c.code locs ex hcomp hext.2 ht.1 hsz ht.2
+  obtain ⟨k, σ', hrun, hmem, h3, h5, h13, h14, h15, hrsp, hlg, hmis⟩ :=
+    jit_call_to_returnC env haddr um c { pcLocs := locs, exitLoc := ex } m σ fuel r0 b hv hcov hext hbase hsent he hlog halign hjb
+  refine ⟨k, σ', hrun, ?_, h3, h5, h13, h14, h15, hrsp, ?_, hmis⟩
+  · rw [← hsame, ← hbm]; exact hmem
+  · rw [hlg, hbl, hlogs]
 
 end Rbpf
